@@ -150,7 +150,7 @@ func (e *Encoder) loopHeader(fr *frame, li *loopInfo, reach *Term, stIn *State) 
 		// second pass with the modified classes havocked, so that store indices that
 		// depend on loop-carried heap state are recognised as such
 		st2 := stIn.clone()
-		for cl := range mod.classes {
+		for _, cl := range sortedStrKeys(mod.classes) {
 			old := e.get(stIn, cl, e.sorts[cl])
 			st2.m[cl] = c.Fresh("dry."+cl, old.S)
 		}
@@ -450,7 +450,8 @@ func (e *Encoder) dryRun(fr *frame, li *loopInfo, stIn *State, entry map[*ssa.Ph
 					ms.all = true
 				}
 				ms.edges++
-				for cl, t := range out.m {
+				for _, cl := range sortedStrKeys(out.m) {
+					t := out.m[cl]
 					old, ok := base.m[cl]
 					if !ok {
 						old = e.get(base, cl, e.sorts[cl])
@@ -670,7 +671,7 @@ func (e *Encoder) genCandidates(fr *frame, li *loopInfo, entry map[*ssa.Phi]*SVa
 			addB("len("+p.Name()+")", v.Len, true)
 		}
 	}
-	for b := range li.body {
+	for _, b := range sortedBlocks(li.body) {
 		for _, in := range b.Instrs {
 			bo, ok := in.(*ssa.BinOp)
 			if !ok {
